@@ -39,7 +39,7 @@ func fmtInt(n int64) string { return strconv.FormatInt(n, 10) }
 
 // Case is one replayable evaluation.
 type Case struct {
-	Kind string `json:"kind"`           // bin | un | truth | fast
+	Kind string `json:"kind"`           // bin | un | truth | fast | forle
 	Op   string `json:"op"`             // operator name or truthiness context
 	A    V      `json:"a"`              //
 	B    *V     `json:"b,omitempty"`    // right operand (bin, fast)
@@ -75,6 +75,8 @@ func (c Case) Show() string {
 		return opByName[c.Op].Sym + " " + c.A.Show()
 	case "fast":
 		return "$a " + opByName[c.Op].Sym + " <literal " + c.B.Show() + ">  with $a = " + c.A.Show()
+	case "forle":
+		return "for (; $a <= <literal " + c.B.Show() + ">; )  with $a = " + c.A.Show()
 	}
 	return c.Op + "(" + c.A.Show() + ")"
 }
@@ -86,7 +88,7 @@ func (c Case) stmt(i int, vals *[]V, sb *strings.Builder) {
 	*vals = append(*vals, c.A)
 	sb.WriteString(operandInit(an, len(*vals)-1, c.A))
 	bn := an
-	if c.B != nil && !c.Same && c.Kind != "fast" {
+	if c.B != nil && !c.Same && c.Kind != "fast" && c.Kind != "forle" {
 		*vals = append(*vals, *c.B)
 		bn = "b" + id
 		sb.WriteString(operandInit(bn, len(*vals)-1, *c.B))
@@ -99,6 +101,9 @@ func (c Case) stmt(i int, vals *[]V, sb *strings.Builder) {
 	case "fast":
 		// literal right operand: `$a <= 5` builds the fused VarIntLe node, other operators the plain node with a literal child
 		sb.WriteString(guarded(i, "$"+an+" "+opByName[c.Op].Sym+" "+literal(*c.B)))
+	case "forle":
+		// `for (; $a <= 5; )`: ForStatement asks the fused node for a Go bool directly (BoolTest fast path)
+		sb.WriteString("try { $k = false; for (; $" + an + " <= " + literal(*c.B) + "; ) { $k = true; break; } __r(" + id + ", $k); } catch (Throwable $e) { __e(" + id + ", $e->getMessage()); }\n")
 	case "truth":
 		sb.WriteString("try { " + truthStmt(c.Op, i, an) + " } catch (Throwable $e) { __e(" + id + ", $e->getMessage()); }\n")
 	}
@@ -218,7 +223,7 @@ func powAnn(c Case) string {
 
 func (r *runner) modelReq(c Case, spec bool) string {
 	switch c.Kind {
-	case "bin", "fast":
+	case "bin", "fast", "forle":
 		same := "0"
 		if c.Same {
 			same = "1"
@@ -364,7 +369,7 @@ func (r *runner) process(cases []Case) []Out {
 
 func (r *runner) ref(cs Case) (Out, bool) {
 	switch cs.Kind {
-	case "bin", "fast":
+	case "bin", "fast", "forle":
 		if cs.Same {
 			return refBin(cs.Op, cs.A, cs.A)
 		}
@@ -574,6 +579,12 @@ func (r *runner) fastPaths(vals []V) {
 				}
 				cases = append(cases, Case{Kind: "fast", Op: op.Name, A: a, B: &l})
 				plain = append(plain, Case{Kind: "bin", Op: op.Name, A: a, B: &l})
+			}
+		}
+		for k := range lits {
+			if l := lits[k]; l.K == "i" {
+				cases = append(cases, Case{Kind: "forle", Op: "le", A: a, B: &l})
+				plain = append(plain, Case{Kind: "bin", Op: "le", A: a, B: &l})
 			}
 		}
 	}
